@@ -7,6 +7,7 @@
  "harness": "h_calc_reserved_gdt_blocks",
  "enforce": ["calc_reserved_gdt_blocks"],
  "replace": ["ext2fs_div_ceil"],
+ "defines": ["VERIF_INV_INITIALIZE_GROUPS="],
  "functions": ["lib/ext2fs/initialize.c:calc_reserved_gdt_blocks"],
  "assumes": ["all 42 legal (block size, descriptor size) pairs, s_blocks_per_group >= 8, s_first_data_block <= 1, block count >= 1",
              "ext2fs_div_ceil (ext2fs.h inline, ((a-1)/b)+1) is REPLACED by a contract: the first call (number of groups of the grown filesystem, divisor s_blocks_per_group) returns an uninterpreted value NG and logs its operands, the second (divisor = descriptors per block, a power of two) is the exact ceiling written with a shift. That ((a-1)/b)+1 is the ceiling of a/b for a symbolic b is NOT proved (no back end finishes a symbolic 32-bit division checked against a product: 120 s time-outs with minisat, z3, cvc5)",
